@@ -68,6 +68,103 @@ pub fn check_no_phantom(set: &AppendedSet, got: &State) -> Result<(), (String, S
 const DECOY_POSITION: u64 = 999;
 const DECOY_PAYLOAD: &[u8] = b"EVIL-never-appended";
 
+impl C08 {
+    /// Mode C of the decoy campaign — no damage at all: a record of queue `b` straddles a WAL file boundary so that the
+    /// part that lands in the next file is exactly the byte image of an entry addressed to queue `a`; `b` is then
+    /// truncated, the first file is garbage-collected, and the log is restarted. The WAL now BEGINS with the orphan
+    /// Last frame of a dead record; it must be dropped, never delivered as an entry.
+    fn orphan_tail_campaign(&self, env: &mut Env, shard: u32, shards: u32) -> Result<(), CaseError> {
+        let variants: u32 = if env.tier == Tier::Quick { 16 } else { 256 };
+        let file_bytes = crate::util::file_bytes();
+        for variant in 0..variants {
+            if variant % shards != shard {
+                continue;
+            }
+            let mut rng = 0x0A11_u64 ^ ((variant as u64) << 9);
+            let dir = env.scratch.fresh("c08-orphan");
+            let mut exec = Exec::new(&dir, Policy::DEFAULT)?;
+            exec.keep_appended = true;
+            let victim = ["a", "victim-queue"][(splitmix(&mut rng) % 2) as usize];
+            exec.step_concrete(COp::Create { q: QName::plain(victim) })?;
+            exec.step_concrete(COp::Create { q: QName::plain("b") })?;
+            // bring the cursor into the last block of the current file
+            let target = file_bytes - crate::util::BLOCK + 200 + (splitmix(&mut rng) % 20_000) as usize;
+            let cursor = exec.driver.global_cursor() as usize % file_bytes;
+            if cursor + 64 < target {
+                let mut len = target - cursor;
+                // subtract the framing: 7 bytes per block crossed + entry header (11 + 1 + 12)
+                let blocks = len / crate::util::BLOCK + 2;
+                len = len.saturating_sub(blocks * FRAME_HEADER + 24);
+                exec.step_concrete(COp::Append { q: QName::plain("b"), pos: None, batch: vec![Pay { len: len as u32, seed: 1, style: 0 }] })?;
+            }
+            let cursor = exec.driver.global_cursor() as usize % file_bytes;
+            let room = file_bytes - cursor;
+            if cursor < file_bytes - crate::util::BLOCK || room < FRAME_HEADER + 24 + 8 {
+                env.class("decoy:orphan-alignment-skipped");
+                continue;
+            }
+            let decoy_entry = craft_entry(4, DECOY_POSITION, victim.as_bytes(), &craft_batch(&[(DECOY_POSITION, DECOY_PAYLOAD.to_vec())]));
+            // host entry = 11 + "b" + 12 + filler + image; its first frame fills the file exactly
+            let filler_len = room - FRAME_HEADER - (11 + 1 + 12);
+            let mut host = crate::util::fill(splitmix(&mut rng), filler_len, 0);
+            host.extend_from_slice(&decoy_entry);
+            let host_pos = exec.model.queues.get("b").map(|queue| queue.next).unwrap_or(0);
+            let frames_before = exec.driver.tracer.frames.len();
+            {
+                let log = exec.driver.log.as_mut().unwrap();
+                exec.driver.tracer.begin_op(2000);
+                log.append_record("b", None, &host[..]).map_err(|err| CaseError::Engine(format!("host append: {err}")))?;
+                exec.driver.tracer.feed(mrecordlog::verif_hooks::take_events()).map_err(CaseError::Engine)?;
+                exec.driver.tracer.end_op(2000);
+            }
+            let host_frames: Vec<_> = exec.driver.tracer.frames[frames_before..].to_vec();
+            let laid_out = host_frames.len() == 2 && host_frames[0].name != host_frames[1].name && host_frames[1].off == 0 && host_frames[1].payload_len == decoy_entry.len();
+            if !laid_out {
+                env.class("decoy:orphan-layout-skipped");
+                continue;
+            }
+            // truncate b entirely: the first file becomes collectable, GC unlinks it
+            {
+                let log = exec.driver.log.as_mut().unwrap();
+                log.truncate("b", ..=host_pos).map_err(|err| CaseError::Engine(format!("truncate: {err}")))?;
+                let _ = mrecordlog::verif_hooks::take_events();
+            }
+            let first_file_gone = !dir.join(&host_frames[0].name).exists();
+            // clean restart
+            let log = exec.driver.log.take();
+            drop(log);
+            let _ = mrecordlog::verif_hooks::take_events();
+            env.evals(1);
+            env.class("decoy:orphan-tail-image-opened");
+            if first_file_gone {
+                env.class("decoy:orphan-tail-first-file-collected");
+            }
+            let reopened = match crate::recover::recover_dir(&dir, Policy::DEFAULT) {
+                Ok(mut recovered) => {
+                    recovered.driver.close()?;
+                    recovered.state
+                }
+                Err(RecoverError::Engine(msg)) => return Err(CaseError::Engine(msg)),
+                Err(_) => continue,
+            };
+            if let Some(queue) = reopened.get(victim) {
+                if let Some((pos, bytes)) = queue.recs.first() {
+                    return Err(CaseError::Violation(Box::new(Failure {
+                        msg: format!("orphan-tail campaign variant {variant}: a record of queue \"b\" straddled a file boundary, its tail being the byte image of an entry for queue {victim:?}; after truncating \"b\", GC of the first file and a clean restart, queue {victim:?} returns a record at position {pos} ({} bytes) that was never appended", bytes.len()),
+                        signature: "phantom-record-from-orphan-tail".to_string(),
+                        policy: Policy::DEFAULT,
+                        ops: exec.cops.clone(),
+                        extra: json!({"orphan_variant": variant}),
+                    })));
+                }
+            }
+            env.nontrivial(mix(0x0A11, variant as u64));
+            env.scratch.remove(&dir);
+        }
+        Ok(())
+    }
+}
+
 impl Property for C08 {
     fn id(&self) -> &'static str {
         "C08"
@@ -86,7 +183,10 @@ impl Property for C08 {
          name and positions per queue strictly increase; Err is acceptable. Payloads never embed CRC-valid frames in this \
          campaign (excluded by construction). A separate, counted DECOY campaign appends payloads that embed a CRC-valid \
          frame and overwrites the host frame's len field so that the reader resynchronises on it (known finding \
-         decoy-resync; any other phantom in that campaign is a violation). evaluations = damaged images opened. \
+         decoy-resync; any other phantom in that campaign is a violation); its mode B re-types the Last frame of a host record \
+         whose continuation frame is the raw image of an entry, its mode C (no damage) lets a record straddle a file boundary \
+         with such an image as its tail, truncates it, lets GC remove the first file and restarts: the orphan tail at the start \
+         of the WAL must not be delivered. evaluations = damaged images opened. \
          non-trivial = damage changed bytes inside the written extent, open returned Ok and >= 1 record was recovered; \
          distinct = hash(history, damage list)."
             .to_string()
@@ -123,6 +223,7 @@ impl Property for C08 {
 
     /// Decoy campaign (deterministic, sharded): the known finding lives here and only here.
     fn fixed_work(&self, env: &mut Env, shard: u32, shards: u32) -> Result<(), CaseError> {
+        self.orphan_tail_campaign(env, shard, shards)?;
         let variants: u32 = if env.tier == Tier::Quick { 96 } else { 1024 };
         let mut first_known: Option<Failure> = None;
         for variant in 0..variants {
@@ -259,6 +360,9 @@ impl Property for C08 {
     }
 
     fn run(&self, case: &Case, env: &mut Env) -> Result<(), CaseError> {
+        if let Some(variant) = case.extra.as_ref().and_then(|extra| extra.get("orphan_variant")).and_then(|value| value.as_u64()) {
+            return self.orphan_tail_campaign(env, variant as u32 % 256, 256);
+        }
         if let Some(variant) = case.extra.as_ref().and_then(|extra| extra.get("decoy_variant")).and_then(|value| value.as_u64()) {
             // replay of a decoy-campaign case: re-run that variant strictly
             let was_strict = env.strict;
